@@ -303,6 +303,9 @@ func At(test string, preds ...Expr) Step {
 
 func Dot() Step    { return Step{Axis: "self", Test: Test{Kind: "node"}, Abbr: "."} }
 func DotDot() Step { return Step{Axis: "parent", Test: Test{Kind: "node"}, Abbr: ".."} }
+// DSlash2 is the relative path .//* (as steps), for operand lists.
+func DSlash2() []Step { return []Step{Dot(), DSlash(), Ch("*")} }
+
 func DSlash() Step {
 	return Step{Axis: "descendant-or-self", Test: Test{Kind: "node"}, Abbr: "//"}
 }
